@@ -43,6 +43,10 @@ pub struct MsmCase {
     /// surplus entries in exactly one of the two lists (ignored by the crate: min of the lengths)
     pub extra_points: u8,
     pub extra_scalars: u8,
+    /// limbs (bit i = 64-bit word i) that are forced to zero in EVERY scalar of the list: whole words that are zero
+    /// across the list (packed 64-bit quantities at word positions 0 and 2, short scalars, ...)
+    #[serde(default)]
+    pub zero_limbs: u8,
 }
 
 fn entry_strategy() -> BoxedStrategy<Entry> {
@@ -73,10 +77,10 @@ fn window_strategy() -> BoxedStrategy<u8> {
 }
 
 fn msm_strategy(group: u8) -> BoxedStrategy<MsmCase> {
-    (proptest::collection::vec(entry_strategy(), 1..24), n_strategy(40), any::<u64>(), window_strategy(), 0u8..3, 0u8..3)
-        .prop_map(move |(pattern, n, step, window, ep, es)| {
+    (proptest::collection::vec(entry_strategy(), 1..24), n_strategy(40), any::<u64>(), window_strategy(), 0u8..3, 0u8..3, prop_oneof![6 => Just(0u8), 3 => 1u8..15])
+        .prop_map(move |(pattern, n, step, window, ep, es, zero_limbs)| {
             let (extra_points, extra_scalars) = if ep > 0 && es > 0 { (ep, 0) } else { (ep, es) };
-            MsmCase { group, pattern, n, step, window, extra_points, extra_scalars }
+            MsmCase { group, pattern, n, step, window, extra_points, extra_scalars, zero_limbs }
         })
         .boxed()
 }
@@ -131,7 +135,28 @@ where
     let step = Z::from(c.step | 1) << 40;
     for i in 0..n {
         let (a, p, k0) = &pat[i % m];
-        let k = (k0 + &step * Z::from((i / m) as u64)) % &two255;
+        let mut k = (k0 + &step * Z::from((i / m) as u64)) % &two255;
+        if c.zero_limbs != 0 {
+            let mut l = scalar_limbs(&k);
+            for w in 0..4 {
+                if c.zero_limbs & (1 << w) != 0 {
+                    l[w] = 0;
+                }
+            }
+            // the bits next to a zeroed word matter: make the top bits of the word below and the low bits of the word above dense
+            for w in 0..4 {
+                if c.zero_limbs & (1 << w) != 0 {
+                    if w > 0 && c.zero_limbs & (1 << (w - 1)) == 0 {
+                        l[w - 1] |= 0xe000_0000_0000_0000 & (c.step.rotate_left(i as u32) | (1u64 << 63));
+                    }
+                    if w < 3 && c.zero_limbs & (1 << (w + 1)) == 0 {
+                        l[w + 1] |= 1 + (i as u64 % 7);
+                    }
+                }
+            }
+            l[3] &= 0x7fff_ffff_ffff_ffff;
+            k = limbs_to_z(&l);
+        }
         exponent = (exponent + &k * a) % r();
         bases.push(*p);
         scalars.push(scalar_limbs(&k));
@@ -170,6 +195,9 @@ where
             classes.push("word-straddling-or-dense-scalar".to_string());
         }
         nontrivial = dup || inv || ident || straddle;
+    }
+    if c.zero_limbs != 0 && n > 0 {
+        classes.push("a-whole-64-bit-word-is-zero-in-every-scalar".to_string());
     }
     if c.extra_points > 0 || c.extra_scalars > 0 {
         classes.push("mismatched-lengths".to_string());
@@ -362,7 +390,7 @@ where
         Entry { pt: PtSel::Sub(11), neg: false, k: ScalarR::Random([0xdead_beef, variant as u64, 7, 0x0123_4567_89ab_cdef]) },
         Entry { pt: PtSel::Sub(13), neg: false, k: ScalarR::ChunkEdge(3, 11) },
     ];
-    let c = MsmCase { group: 0, pattern, n: n as u32, step: 0x9e37_79b9_7f4a_7c15 ^ variant as u64, window: 0, extra_points: 0, extra_scalars: 0 };
+    let c = MsmCase { group: 0, pattern, n: n as u32, step: 0x9e37_79b9_7f4a_7c15 ^ variant as u64, window: 0, extra_points: 0, extra_scalars: 0, zero_limbs: 0 };
     let b = build::<G>(&c);
     let want = G::curve().mul(&b.exponent, &G::gen());
     let refs: Vec<&[u64; 4]> = b.scalars.iter().collect();
@@ -384,7 +412,7 @@ where
         Entry { pt: PtSel::Sub(2), neg: false, k: ks[variant % 4].clone() },
         Entry { pt: PtSel::Small(3), neg: false, k: ks[variant % 4].clone() },
     ];
-    let c = MsmCase { group: 0, pattern, n: n as u32, step: 0, window: 0, extra_points: 0, extra_scalars: 0 };
+    let c = MsmCase { group: 0, pattern, n: n as u32, step: 0, window: 0, extra_points: 0, extra_scalars: 0, zero_limbs: 0 };
     let b = build::<G>(&c);
     let want = G::curve().mul(&b.exponent, &G::gen());
     let refs: Vec<&[u64; 4]> = b.scalars.iter().collect();
@@ -509,7 +537,7 @@ where
         Entry { pt: PtSel::Sub(6), neg: false, k: ScalarR::Random([1, variant as u64, 0x8000_0000_0000_0001, 0x4000_0000_0000_0000]) },
         Entry { pt: PtSel::Sub(5), neg: false, k: ScalarR::WordEdge(2, 13) },
     ];
-    let c = MsmCase { group: 0, pattern, n: 7, step: 1, window: 0, extra_points: 0, extra_scalars: 0 };
+    let c = MsmCase { group: 0, pattern, n: 7, step: 1, window: 0, extra_points: 0, extra_scalars: 0, zero_limbs: 0 };
     let b = build::<G>(&c);
     let want = G::curve().mul(&b.exponent, &G::gen());
     let refs: Vec<&[u64; 4]> = b.scalars.iter().collect();
